@@ -55,8 +55,10 @@ pub fn replace(ms: &ModuleSet, src: &mut Src, allow_reloid: bool) -> (ModuleSet,
             },
             // (the RELATIVE-OID value vanishes silently — finding F-roid-val — and is used in
             // one variant only so that it does not colour the others)
-            Item::Value { .. } => match src.pick(2) {
+            Item::Value { .. } => match src.pick(3) {
                 1 if allow_reloid => raw(&name, &format!("{name} RELATIVE-OID ::= {{ 3 4 }}"), "reloid-value"),
+                // (a REAL value vanishes silently as well — finding F-real-val — same treatment)
+                2 if allow_reloid => raw(&name, &format!("{name} REAL ::= 15"), "real-value"),
                 _ => raw(&name, &format!("{name} VideotexString ::= \"abc\""), "videotex-value"),
             },
             Item::Raw { .. } => continue,
@@ -229,7 +231,7 @@ fn accounting(ms: &ModuleSet, c: &Compiled, tainted: &BTreeSet<String>) -> Optio
     // are fewer warnings than missing definitions the blame lands on the kinds that are
     // known to vanish silently.
     let rank = |it: &Item, kind: &str| -> u8 {
-        if kind == "reloid-value" {
+        if kind == "reloid-value" || kind == "real-value" {
             3
         } else if tainted.contains(it.name()) && matches!(it, Item::Value { .. }) {
             2
@@ -243,7 +245,7 @@ fn accounting(ms: &ModuleSet, c: &Compiled, tainted: &BTreeSet<String>) -> Optio
     let n_take = anonymous.len().min(open_items.len());
     open_items.drain(..n_take);
     if let Some((m, it, rust, kind)) = open_items.first() {
-        let kind = if tainted.contains(it.name()) && fragment(kind).is_none() && kind != "reloid-value" {
+        let kind = if tainted.contains(it.name()) && fragment(kind).is_none() && kind != "reloid-value" && kind != "real-value" {
             format!("dependent-{kind}")
         } else {
             kind.clone()
@@ -302,7 +304,7 @@ fn accounting_ts(ms: &ModuleSet, ts: &str, warnings: &[String]) -> Option<(Strin
     }
     // unnamed warnings are handed to the other definitions first: a RELATIVE-OID value is
     // known to vanish without one (F-roid-val)
-    open.sort_by_key(|(k, _)| (k == "reloid-value") as u8);
+    open.sort_by_key(|(k, _)| (k == "reloid-value" || k == "real-value") as u8);
     let n = anonymous.min(open.len());
     open.drain(..n);
     anonymous -= n;
@@ -479,6 +481,7 @@ fn structure_of(ms: &ModuleSet, c: &Compiled, name: &str) -> Option<String> {
 fn classify(kind: &str) -> Option<&'static str> {
     match kind {
         "reloid-value" => Some("F-roid-val"),
+        "real-value" => Some("F-real-val"),
         "dependent-value" => Some("F-dependent-dropped"),
         _ => None,
     }
@@ -536,7 +539,7 @@ pub fn eval(ms: &ModuleSet, stream_salt: u64) -> Verdict {
             if let Some((kind, d)) = accounting_ts(&var, &tc.generated, &tc.warnings) {
                 failures.push((
                     format!("accounting-ts:{kind}"),
-                    if kind == "reloid-value" { Some("F-roid-val") } else { None },
+                    if kind == "reloid-value" { Some("F-roid-val") } else if kind == "real-value" { Some("F-real-val") } else { None },
                     format!("unaccounted definition after replacement (TypeScript backend): {d}"),
                     json!({"variant": print(&var), "detail": d, "backend": "typescript"}),
                 ));
@@ -633,6 +636,7 @@ pub fn run(tier: Tier, seed: u64, replay: Option<String>) -> i32 {
         let missing = v["expect_missing"].as_str().unwrap_or("").to_string();
         let fid: Option<&'static str> = match v["finding"].as_str() {
             Some("F-roid-val") => Some("F-roid-val"),
+            Some("F-real-val") => Some("F-real-val"),
             Some("F-dependent-dropped") => Some("F-dependent-dropped"),
             Some("F-allcaps") => Some("F-allcaps"),
             _ => None,
